@@ -4,6 +4,7 @@ import AdaVerif.Model.Encode
 import Driver.UrlCmd
 import Driver.UspCmd
 import Driver.PunyCmd
+import Driver.PatCmd
 /-
 Model driver: same line protocol as harness/ada_harness.cpp, answered by the Lean Model/Spec.
 -/
@@ -51,6 +52,7 @@ def step (a : List String) : String :=
   | ["uspless", a, b] => cmdUspLess a b
   | ["puny_enc", a] => cmdPunyEnc a
   | ["puny_dec", a] => cmdPunyDec a
+  | "spec.canon" :: comp :: value :: proto :: hints => cmdSpecCanon comp value proto hints
   | _ => "bad-op"
 
 partial def loop (h : IO.FS.Stream) (out : IO.FS.Stream) : IO Unit := do
